@@ -22,7 +22,11 @@ EXTENDS Naturals, Sequences, FiniteSets, TLC
 Fields   == {"ID", "InResponseTo", "Destination", "Version"}
 Variants == { [v |-> "none", field |-> "ID", pos |-> "first"] } \cup
             [v : {"qualified", "casevariant"}, field : Fields, pos : {"first", "last"}] \cup
-            [v : {"dupIssuer", "nestedIssuer", "foreignIssuer"}, field : {"Issuer"}, pos : {"first", "last"}]
+            [v : {"dupIssuer", "nestedIssuer", "foreignIssuer"}, field : {"Issuer"}, pos : {"first", "last"}] \cup
+            \* paddedIssuer: the root's own Issuer is pretty-printed (the entity ID surrounded by white space).  Element text is
+            \* reported as written by every entry point: nobody trims it, so the padded value is what both sides see, and it
+            \* is not the configured issuer
+            { [v |-> "paddedIssuer", field |-> "Issuer", pos |-> "first"] }
 \* before: what the library was handed immediately before, on the same goroutine (a complete other document in a
 \* DEFLATE stream that is never terminated / that continues with a reserved block type, garbage, another acceptable
 \* message, an over-limit stream).  Nothing below depends on it: the library keeps no state between calls.
@@ -45,10 +49,12 @@ Cfgs   == [issuerCfg : BOOLEAN]
 ValidatedTakesShadow(in) ==
    CASE in.var.v = "qualified" -> (in.rootsig = "signed" \/ in.var.pos = "last")
      [] in.var.v = "dupIssuer" -> in.var.pos = "last"
+     [] in.var.v = "paddedIssuer" -> TRUE
      [] OTHER -> FALSE                       \* case variants, nested and foreign-namespace elements never match
 PredecodeTakesShadow(in) ==
    CASE in.var.v = "qualified" -> in.var.pos = "last"
      [] in.var.v = "dupIssuer" -> in.var.pos = "last"
+     [] in.var.v = "paddedIssuer" -> TRUE
      [] OTHER -> FALSE
 \* a shadow value that wins makes the profile checks fail for these fields
 ShadowFatal(cfg, in) == \/ in.var.field \in {"Destination", "Version"}
